@@ -161,6 +161,7 @@ moqServerCert: %[2]s
   recordPath: %[3]s/rec/%%path/%%Y-%%m-%%d_%%H-%%M-%%S-%%f
 %[9]spaths:
   all_others:
+  cam1:
   rec:
 %[6]s`, verifC13KeyA, verifC13CertA, verifC13Dir, enc, extra, rda, http, media, defRDA)
 	fp := filepath.Join(verifC13Dir, "conf.yml")
@@ -386,6 +387,31 @@ func verifC13Flip(c *conf.Conf, name string) bool {
 	case "PathDefaults":
 		verifC13Toggle(&c.PathDefaults.MaxReaders, 0, 7)
 		return true
+	case "PathsRename":
+		// remove one path name and add another with the same settings: the number of paths and every
+		// surviving entry stay the same
+		from, to := "cam1", "cam2"
+		if _, ok := c.OptionalPaths["cam2"]; ok {
+			from, to = "cam2", "cam1"
+		}
+		op, ok := c.OptionalPaths[from]
+		if !ok {
+			return false
+		}
+		return c.RemovePath(from) == nil && c.AddPath(to, op) == nil
+	case "PathsEdit":
+		// edit one existing entry (not hot-reloadable: the path is recreated by the path manager)
+		name := "cam1"
+		if _, ok := c.OptionalPaths["cam2"]; ok {
+			name = "cam2"
+		}
+		var op conf.OptionalPath
+		if c.Paths[name] != nil && c.Paths[name].MaxReaders == 5 {
+			json.Unmarshal([]byte(`{}`), &op) //nolint:errcheck
+		} else {
+			json.Unmarshal([]byte(`{"maxReaders": 5}`), &op) //nolint:errcheck
+		}
+		return c.ReplacePath(name, &op) == nil
 	}
 	fv := reflect.ValueOf(c).Elem().FieldByName(name)
 	if !fv.IsValid() {
@@ -574,12 +600,24 @@ func verifC13FlipNames() []string {
 		}
 	}
 	sort.Strings(out)
-	out = append(out, "PathDefaults", "Paths+", "PathsRDA", "PathsRDA2")
+	out = append(out, "PathDefaults", "Paths+", "PathsRDA", "PathsRDA2", "PathsRename", "PathsEdit")
 	verifC13FlipList = out
 	return out
 }
 
 // ---- ops ----
+
+func verifC13PathNames(pm *pathManager) []string {
+	l, err := pm.APIPathsList()
+	if err != nil {
+		return []string{"err"}
+	}
+	var names []string
+	for _, it := range l.Items {
+		names = append(names, it.Name+"<"+it.ConfName)
+	}
+	return names
+}
 
 func verifC13Reload(p *Core, nc *conf.Conf) (err error, panicked bool) {
 	defer func() {
@@ -731,6 +769,21 @@ func verifC13Exec(op string) string {
 			}
 			time.Sleep(10 * time.Millisecond) // recordCleaner applies its in-place reload asynchronously
 		}
+		// what the running path manager serves: every path a cold start creates (the static paths of
+		// the new configuration, with their configuration name) must exist in it.  It may hold more: a
+		// path whose name lost its own entry lives on under the matching regular-expression entry.
+		if p.pathManager != nil && twin.pathManager != nil {
+			have := map[string]bool{}
+			for _, n := range verifC13PathNames(p.pathManager) {
+				have[n] = true
+			}
+			for _, n := range verifC13PathNames(twin.pathManager) {
+				if !have[n] {
+					stale = append(stale, "pathManager.paths")
+					break
+				}
+			}
+		}
 		fresh := verifC13Running(twin)
 		verifC13Close(twin)
 		_ = keep
@@ -784,6 +837,7 @@ func verifC13Gen(r *verifutil.Rand, i int, thorough bool) []string {
 			"reset 2", "reload Paths+", "observe", "reload PathDefaults", "observe", "reload PathsRDA", "observe",
 			"reload PathsRDA2", "observe", "reload Paths+", "observe", "reload PathsRDA", "observe",
 			"reload Playback", "observe", "reload PathDefaults", "observe", "reload AuthInternalUsers", "observe",
+			"reload PathsRename", "observe", "reloadf PathsRename", "observe", "reload PathsEdit", "observe",
 		}
 	}
 	// random histories: 1..4 fields per reload, all four base variants
@@ -801,7 +855,7 @@ func verifC13Gen(r *verifutil.Rand, i int, thorough bool) []string {
 		for len(ms) < k {
 			m := names[r.Intn(len(names))]
 			if r.Chance(1, 6) {
-				m = []string{"Paths+", "PathsRDA", "PathsRDA2", "AuthInternalUsers", "RTSPUDPReadBufferSize"}[r.Intn(5)]
+				m = []string{"Paths+", "PathsRDA", "PathsRDA2", "PathsRename", "PathsEdit", "AuthInternalUsers", "RTSPUDPReadBufferSize"}[r.Intn(7)]
 			}
 			if !verifC13HasStr(ms, m) {
 				ms = append(ms, m)
